@@ -2,7 +2,6 @@
 import json
 
 NA_REASONS = {
-    "C06": "'Equal names => equal arrays' is a statement about tokenize (hashing/pickling loops over bytes) and process-global registries; a collision is a hash/registry fact, not arithmetic an SMT encoding of the code can reach.",
     "C07": "Determinism across processes and pickle round trips: serialization and hashing live behind C code and whole-process runs; nothing symbolic to execute.",
     "C10": "Thread schedules and in-place mutation of NumPy buffers by C kernels (views vs copies): concurrency and FFI are outside what the engine can model.",
     "C21": "GraphRecordsLayer is structural translation of Task objects; no numeric kernel, and equality of two task graphs on concrete programs would be enumeration, not solving.",
@@ -218,6 +217,19 @@ check("C05",
       "repaired): dask.optimize over an aligned Blockwise whose operands still need unifying. Outside: several collections at "
       "once, to_delayed, distributed futures.",
       "DESIGN.md 6 C05", technique="bounded symbolic execution of the repo's own optimizer pipeline and layers on symbolic-size expression trees (symx nodes) + symbolic-array graph execution + z3 SMT (QF_UFLIA)")
+
+check("C06",
+      "Solver-decided for the naming logic of this repository on the catalogue programs: every program is pushed through raw "
+      "lowering, simplify, lower, fuse and materialize (optimization on and off); all nodes created on the path -- FromArray "
+      "regions and absorbed rechunks with their hand-built names, rechunk names, fused groups, the RootAlias pin, and every class "
+      "whose __dask_tokenize__ the repository overrides (the override itself decides what enters a symbolic node's token) -- "
+      "are grouped by name; whenever a name is carried by nodes of different full structure (class and operands compared "
+      "recursively), they have the same chunks and dtype and, executed from their own lowered graphs on symbolic blocks, the same "
+      "values at a skolem position, for every chunk-size assignment, bound and data.",
+      "Trusted: as C01; the content hash under the names is a structural digest (hash collisions are outside the claim). Outside: "
+      "pairs of nodes from unrelated programs in one process, random arrays, persisted graphs, dask's SingletonExpr registry and "
+      "the name-keyed lowering cache across programs (the latter under C09).",
+      "DESIGN.md 6 C06", technique="bounded symbolic execution of the repo's own optimizer pipeline and naming code on symbolic-size expression trees (symx nodes) + symbolic-array graph execution + z3 SMT (QF_UFLIA)")
 
 check("C20",
       "Solver-decided for map_blocks calls with one array input whose function reads block_info (or block_id), placed in ten "
